@@ -16,6 +16,7 @@ CONSTANTS
   DlEnds = {0}
   PreEst = TRUE
   BlockOnRoom = TRUE
+  IdTop = FALSE
   TrackKinds = {}
 SPECIFICATION Spec
 VIEW view
